@@ -1496,8 +1496,8 @@ static std::string run_case(char fam, const Vec &v)
 }
 
 // ------------------------------------------------------------------ jobs
-// thorough: the byte families go one level deeper from the empty system and from the initial buffers that differ in one
-// aspect only (each flag combination / each content type / the nearly full buffer); all other initial buffers keep depth 4
+// thorough: the byte families go one level deeper from the empty system and from selected initial buffers (C API: each flag
+// combination; C++ API, whose alphabet is smaller: also each content type and the nearly full buffer); all others keep depth 4
 static bool deep_init(uint64_t init)
 {
 	if (!init) return true;
@@ -1507,7 +1507,8 @@ static bool deep_init(uint64_t init)
 static int depth_of(Tier t, char fam, uint64_t init)
 {
 	switch (fam) {
-	case 'c': case 'x': return t == Quick ? 3 : (deep_init(init) ? 5 : 4);
+	case 'c': return t == Quick ? 3 : (init <= 4 ? 5 : 4);      // empty system and the four flag combinations (raw, 3 bytes used)
+	case 'x': return t == Quick ? 3 : (deep_init(init) ? 5 : 4);
 	case 't': return t == Quick ? 5 : 6;
 	case 'p': return t == Quick ? 5 : 6;
 	case 'm': return t == Quick ? 6 : 7;
